@@ -37,7 +37,7 @@ type FaultCase struct {
 }
 
 var wholeCallKinds = []string{"transport", "body-cut", "status500", "status404", "status302", "notjson", "notarray-object", "notarray-null", "array-shorter", "array-longer"}
-var elementKinds = []string{"elem-null", "elem-number", "errors-with-data", "errors-no-data", "data-missing", "data-null"}
+var elementKinds = []string{"elem-null", "elem-number", "errors-with-data", "errors-no-data", "errors-null-entry", "errors-empty-list", "data-missing", "data-null"}
 var nodeKinds = []string{"node-missing", "node-null", "node-string", "node-list", "node-number"}
 var shapeKinds = []string{"obj->list", "list->obj", "scalar-for-object", "list-entries-nonmaps", "null-for-list", "drop-id", "id-number", "id-object"}
 
@@ -45,7 +45,7 @@ var shapeKinds = []string{"obj->list", "list->obj", "scalar-for-object", "list-e
 func failureSignal(kind string) bool {
 	switch kind {
 	case "transport", "body-cut", "status500", "status404", "status302", "notjson", "notarray-object", "notarray-null", "array-shorter", "array-longer",
-		"errors-with-data", "errors-no-data", "data-missing", "node-missing", "node-string", "node-list", "node-number":
+		"errors-with-data", "errors-no-data", "errors-null-entry", "data-missing", "node-missing", "node-string", "node-list", "node-number":
 		return true
 	}
 	return false
@@ -162,6 +162,12 @@ func applyFault(f Fault, reqs []*fake.Received, normal []map[string]interface{})
 		el["errors"] = []interface{}{map[string]interface{}{"message": "injected failure", "extensions": map[string]interface{}{"code": "INJECTED"}}}
 	case "errors-no-data":
 		elems[f.Pos] = map[string]interface{}{"errors": []interface{}{map[string]interface{}{"message": "injected failure"}}}
+	case "errors-null-entry":
+		// an errors list whose only entry is null is still a failure signal
+		elems[f.Pos] = map[string]interface{}{"data": nil, "errors": []interface{}{nil}}
+	case "errors-empty-list":
+		// "errors": [] next to the data is no failure at all (some servers always send the key)
+		el["errors"] = []interface{}{}
 	case "data-missing":
 		elems[f.Pos] = map[string]interface{}{}
 	case "data-null":
@@ -419,6 +425,15 @@ func checkC09(c *FaultCase) (f *ev.Failure, applied bool) {
 	mainRes := results[0]
 	if signal && len(mainRes.Errors) == 0 {
 		return ev.Failf("masked:"+kind, "the service answered with a failure signal (%s) but the client's errors is empty; data %s", kind, trunc(jsonOf(mainRes.Data), 400)), true
+	}
+	if kind == "errors-empty-list" && c.CleanData != nil {
+		// nothing failed: the answer is the clean answer
+		if len(mainRes.Errors) > 0 {
+			return ev.Failf("spurious-errors", "a service answered with data and an empty errors list, the client gets errors: %s", trunc(jsonOf(mainRes.Errors), 400)), true
+		}
+		if cls, msg := refexec.Diff(refexec.Prune(refexec.Normalize(c.CleanData)), refexec.Prune(refexec.Normalize(map[string]interface{}(mainRes.Data))), "data"); cls != "" {
+			return ev.Failf("spurious-errors:data", "a service answered with data and an empty errors list, the answer differs from the clean one: %s", msg), true
+		}
 	}
 	// taint: every scalar leaf of data was returned by some service during this request
 	returned := map[string]bool{}
